@@ -100,6 +100,9 @@ class FortranDifferential(BoundedCheck):
             yield {'script': G.render_script(p), 'seed': rnd.randrange(10 ** 6), 'kind': 'safe'}
         for s in ('Y = X / 2 + 1 / 2', 'Y = X * 2 ** -1', 'Y = X + 0.1', 'Y = max(X, 2)', 'Y = 0.5 * Y + X'):
             yield {'script': s, 'seed': 5, 'kind': 'literal'}
+        # a sign straight after an operator binds as in Python (`X * -3.0 ** 2.0` is -(3 ** 2) * X)
+        for sc in ('Y = X * -3.0 ** 2.0', 'Y = X ** -2.0 ** 2.0 + W', 'Y = W - -2.0 * X', 'Y = X / -4.0 ** U + -1.5'):
+            yield {'script': sc, 'seed': 3, 'kind': 'safe'}
         # declarations of every size (the row-number lists are wrapped over continuation lines): text only, no compilation, except a few sizes
         for nvars in range(1, 131):
             terms = ' + '.join([f'X{i}' for i in range(nvars)] + [f'{{p{i}}}' for i in range(nvars // 3)])
